@@ -675,8 +675,11 @@ FAM = {
     'C07': dict(cfg=('H2Client_c07_q.cfg', 'H2Client_c07_t.cfg'), budget=(700, 6000), unit=13107, hcfg={'srviw': 26214}, extra=gen_c07_extra, props={'C07'}),
     'C11': dict(cfg=('H2Client_c11_q.cfg', 'H2Client_c11_t.cfg'), budget=(700, 6000), unit=1, hcfg={}, extra=gen_c11_extra, props={'C11'}),
     'C12': dict(cfg=('H2Client_c12_q.cfg', 'H2Client_c12_t.cfg'), budget=(700, 6000), unit=1, hcfg={}, extra=gen_c12_extra, props={'C12'}),
+    # receive-credit ledger of the design model (Ops flag "credit"): 4 units = the client's connection window of 1 MiB
+    'C14': dict(cfg=('H2Client_c14_q.cfg', 'H2Client_c14_q.cfg'), budget=(300, 3000), unit=262144, drvunit=1, hcfg={},
+                extra=lambda ctx, th: gen_c14_extra(ctx, th) + gen_c14_late(ctx, th) + gen_stalled_writer(ctx, th), props={'C14'}),
 }
-EXTRA_ONLY = {'C14': (lambda ctx, th: gen_c14_extra(ctx, th) + gen_c14_late(ctx, th) + gen_stalled_writer(ctx, th), {'C14'}), 'C18': (gen_c18_extra, {'C18', 'C02:request-block-undecodable'}), 'C20': (gen_c20_extra, {'C20'})}
+EXTRA_ONLY = {'C18': (gen_c18_extra, {'C18', 'C02:request-block-undecodable'}), 'C20': (gen_c20_extra, {'C20'})}
 
 
 def build(ctx, pid):
@@ -696,7 +699,15 @@ def build(ctx, pid):
             seen.add(key)
         picked += rest[:max(0, budget - len(picked))]
         for h in picked:
-            scen.append({'tag': pid.lower() + '-model', 'cfg': dict(fam['hcfg'], unit=fam['unit']), 'steps': concretise(h, unit=fam['unit'], rng=ctx.rng), 'abs': h})
+            steps = concretise(h, unit=fam['unit'], rng=ctx.rng)
+            for st in steps:
+                if st.get('op') == 'data' and st.get('n', 0) > 16384 and not st.get('chunks'):
+                    # (response bodies of several frames: the model's unit is a quarter of the client's window here)
+                    n = st['n']
+                    st['chunks'] = [16384] * (n // 16384) + ([n % 16384] if n % 16384 else [])
+                    st['pad'] = -1
+            # (concretise has already put response DATA in octets; the driver's own unit applies to request bodies)
+            scen.append({'tag': pid.lower() + '-model', 'cfg': dict(fam['hcfg'], unit=fam.get('drvunit', fam['unit'])), 'steps': steps, 'abs': h})
         nmodel = len(scen)
         scen += fam['extra'](ctx, thorough)
         props = fam['props']
